@@ -240,6 +240,7 @@ def h_verify_plumbing(ex):
     compressed = ex.bool('compressed')
     result = ex.bool('c_verifier_result')
     comp = bool(compressed)
+    pub = _FakePub(comp)           # the same key object is used for every call (as Input.verify does)
     fv = _FakeVerify(result)
     if ex.concrete:
         old = (K.fastecdsa_secp256k1, K._ecdsa)
@@ -249,7 +250,7 @@ def h_verify_plumbing(ex):
     try:
         sig = K.Signature(7, 9)
         try:
-            out = sig.verify('0d12fdc4aac9eaaab9730999e0ce84c3bd5bb38dfd1f4c90c613ee177987429c', _FakePub(comp))
+            out = sig.verify('0d12fdc4aac9eaaab9730999e0ce84c3bd5bb38dfd1f4c90c613ee177987429c', pub)
         except K.BKeyError:
             ex.check(s_not(oncurve), 'verify-refuses-only-off-curve-keys')
             return
@@ -258,6 +259,19 @@ def h_verify_plumbing(ex):
             K.fastecdsa_secp256k1, K._ecdsa = old
     ex.check(oncurve, 'verify-never-accepts-off-curve-key')
     ex.check(bool(out) == bool(result), 'verify-returns-c-verifier-result')
+    # asking again (same digest, same key) consults the verifier again: no answer is remembered
+    result2 = ex.bool('c_verifier_result_second_call')
+    fv.result = result2
+    if ex.concrete:
+        old2 = (K.fastecdsa_secp256k1, K._ecdsa)
+        K.fastecdsa_secp256k1, K._ecdsa = _FakeCurve(oncurve), fv
+    try:
+        out2 = sig.verify('0d12fdc4aac9eaaab9730999e0ce84c3bd5bb38dfd1f4c90c613ee177987429c', pub)
+    finally:
+        if ex.concrete:
+            K.fastecdsa_secp256k1, K._ecdsa = old2
+    ex.check(bool(out2) == bool(result2), 'verify-second-call-returns-c-verifier-result')
+    ex.check(len(fv.calls) == 2, 'verify-second-call-consults-verifier')
     a = fv.calls[0]
     px, py = _FakePub(comp).public_point()
     ex.check(a[0] == '7' and a[1] == '9' and a[2] == '0d12fdc4aac9eaaab9730999e0ce84c3bd5bb38dfd1f4c90c613ee177987429c'
